@@ -445,7 +445,7 @@ def parse_queries(run, fmt, sexa, fam, src, values, record, row):
                     l = rx(what)
                 elif kind == "contains":
                     l = z3.Concat(ALL, z3.Re(z3.StringVal(what)), ALL)
-                elif kind in ("group-absent", "group-contains", "group-equals"):
+                elif kind in ("group-absent", "group-contains", "group-equals", "group-truthy"):
                     continue          # refine inside the matched language; handled in the value part
                 else:
                     raise N.Unsupported("condition " + kind)
@@ -506,13 +506,22 @@ def parse_queries(run, fmt, sexa, fam, src, values, record, row):
         bad = None
         for conds, v in value_paths:
             neg = z3.Bool("neg")
+            signed = z3.Bool("has_sign")          # the sign group is '+', '-' or empty
             pres = {2: z3.Bool("has_minutes"), 3: z3.Bool("has_seconds")}
-            asm = [g[1] >= 0, g[2] >= 0, g[3] >= 0, g[2] < 100, g[3] < 100, g[1] <= RANGE]
+            asm = [g[1] >= 0, g[2] >= 0, g[3] >= 0, g[2] < 100, g[3] < 100, g[1] <= RANGE, z3.Implies(neg, signed)]
+            # integral witnesses (the text is rebuilt from them; fractions add nothing to the argument)
+            asm += [g[i] == z3.ToReal(z3.ToInt(g[i])) for i in (1, 2, 3)]
             for kind, what, val in conds:
                 if kind == "group-absent" and what in pres:
                     asm.append(pres[what] == (not val))
                 elif kind == "group-equals" and what == (0, "-"):
                     asm.append(neg == val)
+                elif kind == "group-truthy" and what == 0:
+                    asm.append(signed == val)
+                elif kind == "group-truthy" and what in pres:
+                    asm.append(pres[what] == val)      # digit groups are non-empty when present
+                elif kind == "group-truthy":
+                    raise N.Unsupported("truth value of group %r" % (what,))
                 elif kind == "group-equals":
                     raise_unsup = True
             # regex structure: seconds only after minutes
@@ -530,7 +539,7 @@ def parse_queries(run, fmt, sexa, fam, src, values, record, row):
             row["queries"]["Q4-value"] = f"holds on {len(value_paths)} paths"
         else:
             m, neg, pres = bad
-            sign = "-" if z3.is_true(m.eval(neg, model_completion=True)) else ""
+            sign = "-" if z3.is_true(m.eval(neg, model_completion=True)) else ("+" if z3.is_true(m.eval(signed, model_completion=True)) else "")
             text = sign + str(int(model_real(m, g[1])))
             if z3.is_true(m.eval(pres[2], model_completion=True)):
                 text += ":%02d" % int(model_real(m, g[2]))
